@@ -365,7 +365,11 @@ func (x *Exec) loopHead(li *loopInfo, st *State, variants map[*ssa.BasicBlock]Te
 	}
 	if dec != nil {
 		v := x.evalClause(dec, x.fn, st, x.entry, nil, false)
-		variants[li.head] = x.define(x.fresh("variant"), "Int", v)
+		vsort := "Int"
+		if x.X.bvMode {
+			vsort = "(_ BitVec 64)"
+		}
+		variants[li.head] = x.define(x.fresh("variant"), vsort, v)
 	}
 }
 
@@ -394,7 +398,11 @@ func (x *Exec) loopBack(li *loopInfo, st *State, cond Term, variants map[*ssa.Ba
 	if dec := x.fc.LoopDec[li.ordinal]; dec != nil {
 		v := x.evalClause(dec, x.fn, bs, x.entry, nil, false)
 		v0 := variants[li.head]
-		o := x.oblige(bs, "loop-variant", fmt.Sprintf("loop%d-variant", li.ordinal), and(sx(">=", v0, "0"), sx("<", v, v0)), li.head.Instrs[0].Pos(), false, x.props())
+		goal := and(sx(">=", v0, "0"), sx("<", v, v0))
+		if x.X.bvMode {
+			goal = and(sx("bvsge", v0, "(_ bv0 64)"), sx("bvslt", v, v0))
+		}
+		o := x.oblige(bs, "loop-variant", fmt.Sprintf("loop%d-variant", li.ordinal), goal, li.head.Instrs[0].Pos(), false, x.props())
 		o.Clause, o.Line = dec.Text, dec.Line
 	}
 }
